@@ -25,7 +25,7 @@ CompactEvs(ev) == [i \in 1..Len(ev) |-> CompactEv(ev[i])]
 CompactDom(r) == [lu |-> r.lu, lp |-> r.lp, df |-> r.df]
 \* the document is complete: a start tag in error is closed too (the renderer writes well-formed text in every case)
 Line == <<ver, doc \o (IF err THEN <<TokE>> ELSE <<>>) \o CloseToks(stack), CompactEvs(IF err THEN events ELSE events \o CloseEvents(stack)), err,
-          [i \in 1..Len(dom) |-> CompactDom(dom[i])], last.errs>>
+          [i \in 1..Len(dom) |-> CompactDom(dom[i])], last.errs, dtd>>
 
 BuildNames == {<<BuildPrefixSeq[i], ELocal>> : i \in 1..Len(BuildPrefixSeq)}
 BuildStart == \E q \in BuildNames, decls \in {d \in DeclSeqs : Len(d) <= BuildDecls} :
@@ -51,7 +51,9 @@ BigDecls(n) == [i \in 1..n |-> <<BigPrefix(i), BigUri(i)>>]
 BigLookupPrefixes == <<"", "n1", "n2", "n16", "n17", "n20", "n21", "n25", "n26", "n40">>
 BigLookupUris == <<"", "urn:n1", "urn:n16", "urn:n17", "urn:n21", "urn:n26", "urn:v">>
 BigRoot == \E n \in BigNs : StartElement(<<"", ELocal>>, BigDecls(n), <<>>)
-BigChild == LET n == Len(stack[1].decls) IN
+\* an outer element, so that the map that grows is not the first row of the element stack
+BigOuter == nelems = 0 /\ StartElement(<<"", ELocal>>, <<<<"", "urn:n1">>, <<"n2", "urn:v">>>>, <<>>)
+BigChild == LET n == Len(stack[Len(stack)].decls) IN
             \E k \in 1..(n + 1), j \in {1, n}, sh \in {0, 1, 2} :
                StartElement(<<BigPrefix(k), ELocal>>,
                             CASE sh = 0 -> <<>>
@@ -65,7 +67,8 @@ BigAttrs == \E n \in BigAttrNs, u2 \in {"urn:u", "urn:v"} :
               \E pos \in {<<1, 2>>, <<1, n + 2>>, <<n + 1, n + 2>>, <<n \div 2, n + 2>>, <<2, n>>} :
                StartElement(<<"", ELocal>>, <<<<"p", "urn:u">>, <<"q", u2>>>>, WithPair(n, pos[1], pos[2], <<"p", "a">>, <<"q", "a">>))
 BigInit == Init /\ phase = "big0"
-BigNext == \/ phase = "big0" /\ BigRoot /\ phase' = "big1"
+BigNext == \/ phase = "big0" /\ BigOuter /\ phase' = "big0"
+           \/ phase = "big0" /\ BigRoot /\ phase' = "big1"
            \/ phase = "big1" /\ BigChild /\ phase' = "done"
            \/ phase = "big0" /\ BigAttrs /\ phase' = "done"
 BigSpec == BigInit /\ [][BigNext]_gvars
